@@ -103,7 +103,8 @@ func init() {
 				sb = sb[:r.intn(16)] // short seed: UnmarshalBinary fails, Init ignores the error -> zero state
 			}
 			vm := &ds.Context{Seed: sb}
-			if k%3 == 1 {
+			reused := k%3 == 1
+			if reused {
 				// a context that was seeded and used before: seeding it again must start the new sequence
 				vm.Seed = seedBytes(r)
 				vm.Init()
@@ -130,7 +131,13 @@ func init() {
 			for j, b := range cur {
 				cb[j] = int(b)
 			}
-			emit(map[string]any{"seed": bytes, "hi0": u(h0), "lo0": u(l0), "draws": outs, "cur": cb, "hi1": u(h1), "lo1": u(l1)})
+			row := map[string]any{"seed": bytes, "hi0": u(h0), "lo0": u(l0), "draws": outs, "cur": cb, "hi1": u(h1), "lo1": u(l1), "reused": reused}
+			// the same seed on a fresh context (what "seeded evaluation" promises whatever the context was used for before)
+			fresh := &ds.Context{Seed: sb}
+			fresh.Init()
+			fh, fl := srcState(fresh.RandSrc)
+			row["fresh_hi0"], row["fresh_lo0"] = u(fh), u(fl)
+			emit(row)
 		}
 	}
 
